@@ -101,6 +101,45 @@ pub fn enable(salt: u64, cap_live: usize, cap_single: usize) {
     ON.store(true, Ordering::SeqCst);
 }
 
+/// diagnostic switches, read from the environment once before any cell is forked (reading a set
+/// variable allocates, which inside a cell would shift every later address)
+pub static VERBOSE: AtomicBool = AtomicBool::new(false);
+pub static FINAL: AtomicBool = AtomicBool::new(false);
+pub static BT: AtomicBool = AtomicBool::new(false);
+pub static ASTAT: AtomicBool = AtomicBool::new(false);
+
+pub fn read_diag_env() {
+    VERBOSE.store(std::env::var_os("YSIM_VERBOSE").is_some(), Ordering::Relaxed);
+    FINAL.store(std::env::var_os("YSIM_FINAL").is_some(), Ordering::Relaxed);
+    ASTAT.store(std::env::var_os("YSIM_ASTAT").is_some(), Ordering::Relaxed);
+    BT.store(std::env::var_os("YSIM_BT").is_some(), Ordering::Relaxed);
+}
+
+pub fn verbose() -> bool {
+    VERBOSE.load(Ordering::Relaxed)
+}
+
+/// runs a diagnostic closure without perturbing the run it describes
+pub fn outside(f: impl FnOnce()) {
+    // in a forked child: neither the allocator state nor std's per-thread RandomState counter (every
+    // HashMap created while dumping advances it) of the run itself is touched
+    extern "C" {
+        fn fork() -> i32;
+        fn waitpid(pid: i32, status: *mut i32, options: i32) -> i32;
+        fn _exit(code: i32) -> !;
+    }
+    unsafe {
+        let pid = fork();
+        if pid == 0 {
+            f();
+            _exit(0);
+        } else if pid > 0 {
+            let mut st = 0;
+            waitpid(pid, &mut st, 0);
+        }
+    }
+}
+
 pub fn set_caps(cap_live: usize, cap_single: usize) {
     let _g = Guard::new();
     unsafe {
